@@ -1,5 +1,6 @@
 import WM.Lemmas.CompoundWriter
 import WM.Lemmas.CompoundSubFile
+import WM.Lemmas.CompoundBytes
 /-! C20 (compound files): a compound file exposes byte-identical member files; the sub-streams of a
 `CompoundWriter` give back what was written to them for every buffer size and interleaving. -/
 set_option linter.unusedSimpArgs false
@@ -53,6 +54,54 @@ theorem compound_directory (before : Bytes) (files : List (String × Bytes)) :
 
 example : openFile ((assemble [9, 9] [("a", [1, 2, 3]), ("b", []), ("c", [7])]).1 ++ [0xAA])
     (assemble [9, 9] [("a", [1, 2, 3]), ("b", []), ("c", [7])]).2.1 "c" = some [7] := by decide
+
+/-- **The finished compound file, as bytes.**  `assemble` + `write_dir` (12 placeholder bytes at
+    `basepos`, the members, the pickles, then the back-patch of `!q dirpos` / `!i length`) produce
+    a file in which: the bytes before `basepos` are untouched; `CompoundStorage.__init__` reads
+    back exactly the directory position and length and is positioned on exactly the pickled bytes;
+    and every member (distinct names) is still byte-identical — the back-patch touches nothing but
+    the header.  The pickles are an opaque blob (`pickle` is trusted to invert itself). -/
+theorem compound_file_bytes (before : Bytes) (files : List (String × Bytes)) (pickled : Bytes)
+    (hpos : ((assemble before files).2.2 : Int) < 2 ^ 63) (hlen : (pickled.length : Int) < 2 ^ 31)
+    (hnd : (files.map (·.1)).Nodup) :
+    ∃ file, assembleFile before files pickled = .ok file
+      ∧ file.take before.length = before
+      ∧ openDir file before.length = .ok ((assemble before files).2.2, pickled.length, pickled)
+      ∧ ∀ name data, (name, data) ∈ files → openFile file (assemble before files).2.1 name = some data := by
+  refine ⟨_, assembleFile_eq before files pickled hpos hlen, ?_, ?_, ?_⟩
+  · simp only [List.append_assoc]
+    exact List.take_left' rfl
+  · have hd : (assemble before files).2.2
+        = (before ++ WM.NumLists.encodeBE 8 (assemble before files).2.2 ++ WM.NumLists.encodeBE 4 pickled.length
+            ++ (copyFiles (before.length + headerSize) files).1).length := by
+      simp only [List.length_append, WM.NumLists.length_encodeBE]
+      unfold assemble; simp only [headerSize]
+    unfold openDir
+    rw [WM.HashBytes.getNat_enc .q before.length (assemble before files).2.2
+        (WM.StructFile.get_mid' before (WM.NumLists.encodeBE 8 (assemble before files).2.2)
+          (WM.NumLists.encodeBE 4 pickled.length ++ (copyFiles (before.length + headerSize) files).1 ++ pickled)
+          (by simp only [List.append_assoc]) rfl (WM.NumLists.length_encodeBE 8 _).symm)
+        (by rw [WM.NumLists.cap_q]; exact hpos)]
+    rw [WM.HashBytes.getNat_enc .i (before.length + 8) pickled.length
+        (WM.StructFile.get_mid' (before ++ WM.NumLists.encodeBE 8 (assemble before files).2.2)
+          (WM.NumLists.encodeBE 4 pickled.length) ((copyFiles (before.length + headerSize) files).1 ++ pickled)
+          (by simp only [List.append_assoc]) (by simp [WM.NumLists.length_encodeBE])
+          (WM.NumLists.length_encodeBE 4 _).symm)
+        (by rw [WM.NumLists.cap_i]; exact hlen)]
+    simp only [bind, Except.bind]
+    rw [List.drop_left' hd.symm]
+  · intro name data hmem
+    have hpre : (before ++ WM.NumLists.encodeBE 8 (assemble before files).2.2
+        ++ WM.NumLists.encodeBE 4 pickled.length).length = before.length + headerSize := by
+      simp only [List.length_append, WM.NumLists.length_encodeBE, headerSize]
+    have := openFile_layout before files _ pickled hpre hnd name data hmem
+    unfold assemble
+    exact this
+
+example : assembleFile [9] [("a", [1, 2]), ("b", [3])] [0x80, 0x4E]
+      = .ok [9, 0, 0, 0, 0, 0, 0, 0, 16, 0, 0, 0, 2, 1, 2, 3, 0x80, 0x4E] :=
+  (assembleFile_eq [9] [("a", [1, 2]), ("b", [3])] [0x80, 0x4E] (by decide) (by decide)).trans
+    (congrArg _ (by decide +kernel))
 
 /-! ### CompoundWriter -/
 
